@@ -291,8 +291,9 @@ impl HBox {
                             den: common::Scaled::ONE,
                         };
                     } else {
+                        // Shrinking is a negative ratio, as in the general case below.
                         hbox.glue_ratio = GlueRatio {
-                            num: common::Scaled::ONE,
+                            num: -common::Scaled::ONE,
                             den: common::Scaled::ONE,
                         };
                     }
